@@ -195,6 +195,7 @@ impl Server {
             "fmt" => self.op_fmt(req),
             "check" => self.op_check(req),
             "eval" => self.op_eval(req),
+            "pipeline" => self.op_pipeline(req),
             "build" => self.op_build(req),
             "convert" => self.op_convert(req),
             "import" => self.op_import(req),
@@ -367,6 +368,65 @@ impl Server {
             }
             resp
         })
+    }
+
+    /// C04: run one text through every stage, each under its own catch_unwind, and report the
+    /// outcome class per stage (ok / err / panic).
+    fn op_pipeline(&mut self, req: &J) -> J {
+        let src = req["src"].as_str().unwrap_or("").to_string();
+        let mut stages = serde_json::Map::new();
+        fn guard<F: FnOnce() -> J>(f: F) -> J {
+            match catch_unwind(AssertUnwindSafe(f)) {
+                Ok(j) => j,
+                Err(p) => {
+                    let msg = if let Some(s) = p.downcast_ref::<&str>() {
+                        s.to_string()
+                    } else if let Some(s) = p.downcast_ref::<String>() {
+                        s.clone()
+                    } else {
+                        "panic".to_string()
+                    };
+                    let loc = LAST_PANIC_LOC.with(|c| c.borrow().clone());
+                    json!({"panic": msg, "loc": loc})
+                }
+            }
+        }
+        fn brief(j: &J) -> J {
+            if j.get("panic").is_some() {
+                j.clone()
+            } else if let Some(e) = j.get("err") {
+                let s = e.as_str().unwrap_or("");
+                if s.trim().is_empty() { json!("err-empty") } else { json!("err") }
+            } else {
+                json!("ok")
+            }
+        }
+        let r = guard(|| self.op_tokenize(&json!({"src": src})));
+        stages.insert("tokenize".into(), brief(&r));
+        let r = guard(|| self.op_parse(&json!({"src": src})));
+        let parsed = r.get("ok").is_some();
+        stages.insert("parse".into(), brief(&r));
+        if parsed {
+            let r = guard(|| self.op_fmt(&json!({"src": src})));
+            stages.insert("fmt".into(), brief(&r));
+            let r = guard(|| self.op_check(&json!({"src": src})));
+            stages.insert("check".into(), brief(&r));
+            let r = guard(|| self.op_eval(&json!({"src": src, "strict": req.get("strict").and_then(|b| b.as_bool()).unwrap_or(true)})));
+            stages.insert("eval".into(), brief(&r));
+            if let Some(v) = r.get("ok") {
+                if req.get("convert").and_then(|b| b.as_bool()).unwrap_or(true) {
+                    for fmt in ["json", "yaml", "toml", "env", "flags", "exec", "xml", "yamlmulti"] {
+                        let rr = guard(|| self.op_convert(&json!({"fmt": fmt, "val": v})));
+                        let b = brief(&rr);
+                        if b != json!("ok") && b != json!("err") {
+                            stages.insert(format!("convert-{}", fmt), b);
+                        }
+                    }
+                    stages.insert("convert".into(), json!("done"));
+                }
+            }
+        }
+        json!({"stages": J::Object(stages)})
     }
 
     fn op_build(&mut self, req: &J) -> J {
